@@ -5,8 +5,9 @@
   DecodeType) and show that nothing in heap.go / deleted.go / passwords.go / ReadVarlena adds a fault.
 -/
 import PgVerif.Proofs.Rows
+import PgVerif.Proofs.HeapFile
 namespace PgVerif.Props.C10.Rows
-open PgVerif PgVerif.Model PgVerif.Proofs.Rows
+open PgVerif PgVerif.Model PgVerif.Proofs PgVerif.Proofs.Rows
 
 /-- a scalar decoder that returns for every input -/
 def TotalDec (dec : Dec) : Prop := ∀ b t, ∃ v, dec b t = .ok v
@@ -80,10 +81,11 @@ theorem C10_total_decodeCols (dec : Dec) (hdec : TotalDec dec) (t : HeapTuple) (
   | nil => exact ⟨_, rfl⟩
   | cons c cs ih =>
     simp only [decodeCols]
-    split
+    generalize (if c.num = 0 then (i : Int) + 1 else c.num) = num
+    by_cases hnl : t.isNull num = true
     · obtain ⟨r, hr⟩ := ih (i + 1) off
-      rw [hr]; exact ⟨_, rfl⟩
-    · rw [chooseAlign_eq]
+      rw [if_pos hnl, hr]; exact ⟨_, rfl⟩
+    · rw [if_neg hnl, chooseAlign_eq]
       simp only [ok_bind]
       obtain ⟨r, hr⟩ := C10_total_readValue dec hdec t.data
         (Model.align off (if c.len = -1 ∧ off < t.data.length ∧ t.data[off]?.getD 0 ≠ 0 then 1 else colAlign c)) c.typid c.len
@@ -102,27 +104,17 @@ theorem C10_total_decodeTuple (dec : Dec) (hdec : TotalDec dec) (t : HeapTuple) 
   · obtain ⟨r, hr⟩ := C10_total_decodeCols dec hdec t cols 0 0
     rw [hr]; exact ⟨_, rfl⟩
 
-theorem collectM_total {α β} (f : α → M (Option β)) (xs : List α) (h : ∀ x, ∃ r, f x = .ok r) :
-    ∃ r, collectM f xs = .ok r := by
-  induction xs with
-  | nil => exact ⟨_, rfl⟩
-  | cons x xs ih =>
-    obtain ⟨r, hr⟩ := h x
-    obtain ⟨rs, hrs⟩ := ih
-    simp only [collectM, hr, hrs, ok_bind]
-    exact ⟨_, rfl⟩
-
-/-- ReadRows adds no fault to the tuple scan: wherever `ReadTuples` returns, `ReadRows` returns. -/
-theorem C10_total_readRows (dec : Dec) (hdec : TotalDec dec) (data : Bytes) (cols : List Column) (vis : Bool)
-    (hscan : ∃ es, readTuples data vis = .ok es) : ∃ r, readRows dec data cols vis = .ok r := by
-  obtain ⟨es, hes⟩ := hscan
+/-- ReadRows returns for every byte string, every schema and both settings of the visibility switch. -/
+theorem C10_total_readRows (dec : Dec) (hdec : TotalDec dec) (data : Bytes) (cols : List Column) (vis : Bool) :
+    ∃ r, readRows dec data cols vis = .ok r := by
+  obtain ⟨es, hes⟩ : ∃ es, readTuples data vis = .ok es := readTuplesFrom_total data vis _ 0
   simp only [readRows, hes, ok_bind]
   exact collectM_total _ es fun e => C10_total_decodeTuple dec hdec e.tuple cols
 
 /-- … and so do ReadDeletedRows and ReadRowsWithDeleted. -/
-theorem C10_total_readDeletedRows (dec : Dec) (hdec : TotalDec dec) (data : Bytes) (cols : List Column)
-    (hscan : ∃ es, readTuples data false = .ok es) : ∃ r, readDeletedRows dec data cols = .ok r := by
-  obtain ⟨es, hes⟩ := hscan
+theorem C10_total_readDeletedRows (dec : Dec) (hdec : TotalDec dec) (data : Bytes) (cols : List Column) :
+    ∃ r, readDeletedRows dec data cols = .ok r := by
+  obtain ⟨es, hes⟩ : ∃ es, readTuples data false = .ok es := readTuplesFrom_total data false _ 0
   simp only [readDeletedRows, hes, ok_bind]
   apply collectM_total
   intro e
@@ -134,9 +126,9 @@ theorem C10_total_readDeletedRows (dec : Dec) (hdec : TotalDec dec) (data : Byte
     · exact ⟨_, rfl⟩
   · exact ⟨_, rfl⟩
 
-theorem C10_total_readRowsWithDeleted (dec : Dec) (hdec : TotalDec dec) (data : Bytes) (cols : List Column)
-    (hscan : ∃ es, readTuples data false = .ok es) : ∃ r, readRowsWithDeleted dec data cols = .ok r := by
-  obtain ⟨es, hes⟩ := hscan
+theorem C10_total_readRowsWithDeleted (dec : Dec) (hdec : TotalDec dec) (data : Bytes) (cols : List Column) :
+    ∃ r, readRowsWithDeleted dec data cols = .ok r := by
+  obtain ⟨es, hes⟩ : ∃ es, readTuples data false = .ok es := readTuplesFrom_total data false _ 0
   simp only [readRowsWithDeleted, hes, ok_bind]
   have : ∃ rs, decodedEntries dec cols es = .ok rs := by
     apply collectM_total
@@ -145,5 +137,71 @@ theorem C10_total_readRowsWithDeleted (dec : Dec) (hdec : TotalDec dec) (data : 
     rw [hr]; exact ⟨_, rfl⟩
   obtain ⟨rs, hrs⟩ := this
   rw [hrs]; exact ⟨_, rfl⟩
+
+/-- The per-tuple body of ParsePGAuthID returns for every tuple: the fixed offsets 0, 4, 68, 72, 80 are all
+guarded (by `len(Data) < 70` and by the individual `offset+n <= len` tests). -/
+theorem C10_total_authOne (t : HeapTuple) : ∃ r, authOne t = .ok r := by
+  have hpw : ∀ off, ∃ pw, authPassword t off = .ok pw := by
+    intro off
+    unfold authPassword
+    split
+    · split
+      · rw [sliceFrom_ok _ _ (by omega)]
+        simp only [ok_bind]
+        obtain ⟨r, hr⟩ := C10_total_readVarlena (t.data.drop (Model.align off 4))
+        rw [hr]; exact ⟨_, rfl⟩
+      · exact ⟨_, rfl⟩
+    · exact ⟨_, rfl⟩
+  unfold authOne
+  by_cases h70 : t.data.length < 70
+  · rw [if_pos h70]; exact ⟨_, rfl⟩
+  · rw [if_neg h70, if_pos (by omega), uN_ok 4 t.data 0 (by omega)]
+    simp only [ok_bind]
+    rw [if_pos (by omega), sliceFrom_ok _ _ (by omega)]
+    simp only [ok_bind]
+    rw [if_pos (by omega), idx_ok _ _ (by omega)]
+    simp only [ok_bind]
+    by_cases h73 : 72 + 1 ≤ t.data.length
+    · rw [if_pos h73, idx_ok _ _ (by omega)]
+      simp only [ok_bind]
+      obtain ⟨pw, hp⟩ := hpw (Model.align ((if 72 + 1 ≤ t.data.length then 73 else 72) + 2) 4 + 4)
+      rw [hp]
+      simp only [ok_bind]
+      split <;> exact ⟨_, rfl⟩
+    · rw [if_neg h73]
+      simp only [ok_bind, pure_eq_ok]
+      obtain ⟨pw, hp⟩ := hpw (Model.align ((if 72 + 1 ≤ t.data.length then 73 else 72) + 2) 4 + 4)
+      rw [hp]
+      simp only [ok_bind]
+      split <;> exact ⟨_, rfl⟩
+
+/-- ParsePGAuthID returns for every byte string. -/
+theorem C10_total_parsePGAuthID (data : Bytes) : ∃ r, parsePGAuthID data = .ok r := by
+  obtain ⟨es, hes⟩ : ∃ es, readTuples data false = .ok es := readTuplesFrom_total data false _ 0
+  simp only [parsePGAuthID, hes, ok_bind]
+  exact collectM_total _ es fun e => C10_total_authOne e.tuple
+
+/-- ExtractPasswordsFromFiles returns (roles, or the reader's error) for every reader. -/
+theorem C10_total_extractPasswordsFromFiles (reader : Bytes → Option Bytes) :
+    ∃ r, extractPasswordsFromFiles reader = .ok r := by
+  unfold extractPasswordsFromFiles
+  split
+  · exact ⟨_, rfl⟩
+  · rename_i data _
+    obtain ⟨r, hr⟩ := C10_total_parsePGAuthID data
+    rw [hr]; exact ⟨_, rfl⟩
+
+/-- Value isolation: a column's value and the number of bytes it consumes depend only on the data bytes from
+the column's offset on — whatever bytes precede it (damaged or not) it decodes the same (`readValue` never
+looks back). -/
+theorem C10_isolate_value (dec : Dec) (pre pre' X : Bytes) (typid len : Int) :
+    readValue dec (pre ++ X) pre.length typid len = readValue dec (pre' ++ X) pre'.length typid len := by
+  rw [readValue_shift, readValue_shift]
+
+/-- non-vacuity: the trivial decoder is total, and a hostile schema over a 3-byte tuple decodes -/
+example : TotalDec (fun b _ => pure (.int b.length)) := fun _ _ => ⟨_, rfl⟩
+example : decodeTuple (fun b _ => pure (.int b.length)) ⟨⟨0, 0, 0, false, false, false, true⟩, some [5], [3, 1, 18]⟩
+    [⟨[97], 25, -1, -4, 255⟩, ⟨[98], 0, 9223372036854775807, 2, 0⟩, ⟨[99], 16, -7, 9999, 100⟩]
+    = .ok (some [([97], .str []), ([98], .nil), ([99], .nil)]) := by rfl
 
 end PgVerif.Props.C10.Rows
